@@ -481,6 +481,7 @@ type (
 		Forall bool
 		Vars   [][2]string
 		Body   Expr
+		Trig   []Expr // optional explicit trigger { e1, e2 }: one (multi-)pattern
 	}
 	ECond struct{ C, A, B Expr }
 )
@@ -568,7 +569,7 @@ func lex(s string) ([]tok, error) {
 					goto next
 				}
 			}
-			if strings.ContainsRune("+-*/%<>!()[].,?:", rune(c)) {
+			if strings.ContainsRune("+-*/%<>!()[].,?:{}", rune(c)) {
 				out = append(out, tok{"op", string(c)})
 				i++
 			} else {
@@ -732,14 +733,32 @@ func (p *parser) primary() Expr {
 				if n.kind != "id" || ty.kind != "id" {
 					p.fail("quantifier binder: name type")
 				}
+				if (ty.s == "map" || ty.s == "set") && p.accept("[") {
+					k := p.next()
+					p.expect("]")
+					ty.s = ty.s + "[" + k.s + "]"
+					if ty.s[:3] == "map" {
+						ty.s += p.next().s
+					}
+				}
 				vars = append(vars, [2]string{n.s, ty.s})
 				if !p.accept(",") {
 					break
 				}
 			}
+			var trig []Expr
+			if p.accept("{") {
+				for {
+					trig = append(trig, p.expr(0))
+					if !p.accept(",") {
+						break
+					}
+				}
+				p.expect("}")
+			}
 			p.expect("::")
 			body := p.expr(0)
-			return &EQuant{t.s == "forall", vars, body}
+			return &EQuant{t.s == "forall", vars, body, trig}
 		}
 		return &EIdent{t.s}
 	case "op":
